@@ -11,7 +11,8 @@ DESIGN_REF = '5/C18'
 TECHNIQUE = ('bounded exhaustive enumeration of inputs (every tuple of <= 3 task statuses; every tuple of <= 3 tasks each without result or '
              'with 0-2 results of chosen verdict; every tuple of <= 3 results with verdict x label dictionaries x every label selection) '
              'through the real diagnostics classes and through the task_stats / test_stats task pipeline, against a recount by hand')
-RULE = ('(tasks) every tuple of 1-3 statuses over the 5 task statuses; (tests) every tuple of 1-3 tasks over {no result, [], [T], [F], '
+RULE = ('[label values incl. falsy ones (index 0, meal empty string); the by-labels family also with one test name shared by all results] ' +
+        '(tasks) every tuple of 1-3 statuses over the 5 task statuses; (tests) every tuple of 1-3 tasks over {no result, [], [T], [F], '
         '[T,T], [T,F], [F,T], [F,F]}, with distinct test names, one shared test name, and one shared name under per-task labels; (labels) every tuple of 1-3 results over verdict x day in {d1, d2, absent} x meal in {m1, absent} x index in {7, absent}, '
         'with every selection of 1-2 labels, three permutations of all 3 labels and an unknown label; oracle: each task under its status exactly '
         'once, each result under success / failure by verdict exactly once, tasks without result under missing, per label combination '
